@@ -78,49 +78,49 @@ package gohbase
 //@   ensures[C12] marksMonotone() && allMarked(retryables) && distinctCalls(retryables) && marksFrame(retryables)
 //@   ensures[C07] wfcUnretry(rpcs, results, rpcToRes, len(rpcs), unretryableError || ghostat("ctxdone", ctx) == 1)
 //@   ensures[C07] forall(p, 0 <= p && p < len(retryables), results[rpcToRes[retryables[p]]].Error != nil)
-//@   loop 1 invariant wfcUnretry(rpcs, results, rpcToRes, i, unretryableError)
+//@   loop 1 invariant[C07,C12] wfcUnretry(rpcs, results, rpcToRes, i, unretryableError)
 //@   ensures[C07] wfcUnretry2(rpcs, results, rpcToRes, retryables, len(rpcs), unretryableError || ghostat("ctxdone", ctx) == 1)
-//@   loop 1 invariant wfcUnretry2(rpcs, results, rpcToRes, retryables, i, unretryableError)
+//@   loop 1 invariant[C07,C12] wfcUnretry2(rpcs, results, rpcToRes, retryables, i, unretryableError)
 // a "retry later" answer anywhere in the group asks for a wait before the next round, whatever comes after it (C17)
 //@   loop 1 invariant[C17] forall(k, 0 <= k && k < i && typeis(results[rpcToRes[rpcs[k]]].Error, "region.RetryableError"), shouldBackoff)
 // every result of one of the three retry classes - connection dead, region not served here, server asks to retry - puts
 // its call on the retry list (C04: a batch survives the loss of a server or the move of a region like a single request does)
 //@   loop 1 invariant[C04,C12] forall(k, 0 <= k && k < i && retryClass(results[rpcToRes[rpcs[k]]].Error), ghostat("retrymark", rpcs[k]) == ghost("round"))
-//@   loop 1 exit-assert wfcUnretry2(rpcs, results, rpcToRes, retryables, canceledIndex, unretryableError)
-//@   loop 2 invariant wfcUnretry2(rpcs, results, rpcToRes, retryables, canceledIndex, unretryableError)
-//@   loop 1 exit-assert wfcUnretry(rpcs, results, rpcToRes, canceledIndex, unretryableError)
-//@   loop 2 invariant wfcUnretry(rpcs, results, rpcToRes, canceledIndex, unretryableError)
-//@   loop 1 invariant forall(p, 0 <= p && p < len(retryables), haskey(rpcToRes, retryables[p]) && results[rpcToRes[retryables[p]]].Error != nil && exists(k, 0 <= k && k < i && retryables[p] == rpcs[k]))
-//@   loop 1 exit-assert forall(p, 0 <= p && p < len(retryables), haskey(rpcToRes, retryables[p]) && results[rpcToRes[retryables[p]]].Error != nil && exists(k, 0 <= k && k < canceledIndex && retryables[p] == rpcs[k]))
-//@   loop 2 invariant forall(p, 0 <= p && p < len(retryables), haskey(rpcToRes, retryables[p]) && results[rpcToRes[retryables[p]]].Error != nil && exists(k, 0 <= k && k < canceledIndex && retryables[p] == rpcs[k]))
+//@   loop 1 exit-assert[C07,C12] wfcUnretry2(rpcs, results, rpcToRes, retryables, canceledIndex, unretryableError)
+//@   loop 2 invariant[C07,C12] wfcUnretry2(rpcs, results, rpcToRes, retryables, canceledIndex, unretryableError)
+//@   loop 1 exit-assert[C07,C12] wfcUnretry(rpcs, results, rpcToRes, canceledIndex, unretryableError)
+//@   loop 2 invariant[C07,C12] wfcUnretry(rpcs, results, rpcToRes, canceledIndex, unretryableError)
+//@   loop 1 invariant[C07,C12] forall(p, 0 <= p && p < len(retryables), haskey(rpcToRes, retryables[p]) && results[rpcToRes[retryables[p]]].Error != nil && exists(k, 0 <= k && k < i && retryables[p] == rpcs[k]))
+//@   loop 1 exit-assert[C07,C12] forall(p, 0 <= p && p < len(retryables), haskey(rpcToRes, retryables[p]) && results[rpcToRes[retryables[p]]].Error != nil && exists(k, 0 <= k && k < canceledIndex && retryables[p] == rpcs[k]))
+//@   loop 2 invariant[C07,C12] forall(p, 0 <= p && p < len(retryables), haskey(rpcToRes, retryables[p]) && results[rpcToRes[retryables[p]]].Error != nil && exists(k, 0 <= k && k < canceledIndex && retryables[p] == rpcs[k]))
 //@   ensures[C12] forall(p, 0 <= p && p < len(retryables), retryables[p] != nil)
-//@   loop 1 invariant marksMonotone() && allMarked(retryables) && distinctCalls(retryables) && marksFrame(retryables)
-//@   loop 1 invariant forall(k, i <= k && k < len(rpcs), ghostat("retrymark", rpcs[k]) != ghost("round"))
-//@   loop 1 invariant forall(p, 0 <= p && p < len(retryables), retryables[p] != nil)
-//@   loop 1 exit-assert marksMonotone() && allMarked(retryables) && distinctCalls(retryables) && marksFrame(retryables)
-//@   loop 1 exit-assert forall(p, 0 <= p && p < len(retryables), retryables[p] != nil)
+//@   loop 1 invariant[C07,C12] marksMonotone() && allMarked(retryables) && distinctCalls(retryables) && marksFrame(retryables)
+//@   loop 1 invariant[C07,C12] forall(k, i <= k && k < len(rpcs), ghostat("retrymark", rpcs[k]) != ghost("round"))
+//@   loop 1 invariant[C07,C12] forall(p, 0 <= p && p < len(retryables), retryables[p] != nil)
+//@   loop 1 exit-assert[C07,C12] marksMonotone() && allMarked(retryables) && distinctCalls(retryables) && marksFrame(retryables)
+//@   loop 1 exit-assert[C07,C12] forall(p, 0 <= p && p < len(retryables), retryables[p] != nil)
 //@   panics never[C07]
 //@   ensures[C07] wfcFrame(rpcs, results, rpcToRes, len(rpcs))
 //@   ensures[C07] ok == wfcOK(rpcs, results, rpcToRes, len(rpcs))
 //@   ensures[C07] wfcRecvd(rpcs, results, rpcToRes, len(rpcs))
 //@   ensures[C12] wfcRetry(rpcs, results, rpcToRes, retryables, len(rpcs))
-//@   loop 1 invariant canceledIndex == len(rpcs) && sameCalls(rpcs)
-//@   loop 1 invariant wfcFrame(rpcs, results, rpcToRes, i)
-//@   loop 1 invariant ok == wfcOK(rpcs, results, rpcToRes, i)
-//@   loop 1 invariant wfcRecvd(rpcs, results, rpcToRes, i)
-//@   loop 1 invariant wfcRetry(rpcs, results, rpcToRes, retryables, i)
-//@   loop 1 exit-assert 0 <= canceledIndex && canceledIndex <= len(rpcs) && sameCalls(rpcs)
-//@   loop 1 exit-assert canceledIndex < len(rpcs) ==> ghostat("ctxdone", ctx) == 1
-//@   loop 1 exit-assert wfcFrame(rpcs, results, rpcToRes, canceledIndex)
-//@   loop 1 exit-assert ok == wfcOK(rpcs, results, rpcToRes, canceledIndex)
-//@   loop 1 exit-assert wfcRecvd(rpcs, results, rpcToRes, canceledIndex)
-//@   loop 1 exit-assert wfcRetry(rpcs, results, rpcToRes, retryables, canceledIndex)
-//@   loop 2 invariant 0 <= canceledIndex && canceledIndex <= len(rpcs) && sameCalls(rpcs)
-//@   loop 2 invariant canceledIndex < len(rpcs) ==> ghostat("ctxdone", ctx) == 1
-//@   loop 2 invariant wfcFrame(rpcs, results, rpcToRes, canceledIndex + idx2)
-//@   loop 2 invariant ok == wfcOK(rpcs, results, rpcToRes, canceledIndex + idx2)
-//@   loop 2 invariant wfcRecvd(rpcs, results, rpcToRes, canceledIndex + idx2)
-//@   loop 2 invariant wfcRetry(rpcs, results, rpcToRes, retryables, canceledIndex)
+//@   loop 1 invariant[C07,C12] canceledIndex == len(rpcs) && sameCalls(rpcs)
+//@   loop 1 invariant[C07] wfcFrame(rpcs, results, rpcToRes, i)
+//@   loop 1 invariant[C07] ok == wfcOK(rpcs, results, rpcToRes, i)
+//@   loop 1 invariant[C07] wfcRecvd(rpcs, results, rpcToRes, i)
+//@   loop 1 invariant[C07,C12] wfcRetry(rpcs, results, rpcToRes, retryables, i)
+//@   loop 1 exit-assert[C07,C12] 0 <= canceledIndex && canceledIndex <= len(rpcs) && sameCalls(rpcs)
+//@   loop 1 exit-assert[C07,C12] canceledIndex < len(rpcs) ==> ghostat("ctxdone", ctx) == 1
+//@   loop 1 exit-assert[C07] wfcFrame(rpcs, results, rpcToRes, canceledIndex)
+//@   loop 1 exit-assert[C07] ok == wfcOK(rpcs, results, rpcToRes, canceledIndex)
+//@   loop 1 exit-assert[C07] wfcRecvd(rpcs, results, rpcToRes, canceledIndex)
+//@   loop 1 exit-assert[C07,C12] wfcRetry(rpcs, results, rpcToRes, retryables, canceledIndex)
+//@   loop 2 invariant[C07,C12] 0 <= canceledIndex && canceledIndex <= len(rpcs) && sameCalls(rpcs)
+//@   loop 2 invariant[C07,C12] canceledIndex < len(rpcs) ==> ghostat("ctxdone", ctx) == 1
+//@   loop 2 invariant[C07] wfcFrame(rpcs, results, rpcToRes, canceledIndex + idx2)
+//@   loop 2 invariant[C07] ok == wfcOK(rpcs, results, rpcToRes, canceledIndex + idx2)
+//@   loop 2 invariant[C07] wfcRecvd(rpcs, results, rpcToRes, canceledIndex + idx2)
+//@   loop 2 invariant[C07,C12] wfcRetry(rpcs, results, rpcToRes, retryables, canceledIndex)
 
 //@ func hrpc.RegionClient.QueueBatch(ctx, rpcs)
 //@   modifies X.queued
@@ -160,13 +160,13 @@ package gohbase
 //@   at call append#1 ghost grpidx[i] == len(rpcByClient[rc])
 //@   ensures[C12] r1 ==> groupsCover(r0, batch, len(batch))
 //@   ensures[C12] forall(rc, haskey(r0, rc) ==> allocated(r0[rc]) && rc != nil)
-//@   loop 1 invariant ok ==> groupsCover(rpcByClient, batch, i)
-//@   loop 1 invariant forall(rc, haskey(rpcByClient, rc) ==> rc != nil)
-//@   loop 1 invariant rpcByClient != nil && forall(k, 0 <= k && k < len(batch), batch[k] == old(batch[k]))
-//@   loop 1 invariant forall(k, 0 <= k && k < len(batch), res[k].Msg == old(res[k].Msg) && (res[k].Error == old(res[k].Error) || res[k].Error != nil))
-//@   loop 1 invariant forall(j, len(batch) <= j && j < len(res), res[j].Msg == old(res[j].Msg) && res[j].Error == old(res[j].Error))
-//@   loop 1 invariant groupsOK(rpcByClient, batch, i) && groupsOrdered(rpcByClient)
-//@   loop 1 invariant forall(rc, haskey(rpcByClient, rc) ==> allocated(rpcByClient[rc]))
+//@   loop 1 invariant[C07,C12] ok ==> groupsCover(rpcByClient, batch, i)
+//@   loop 1 invariant[C07,C12] forall(rc, haskey(rpcByClient, rc) ==> rc != nil)
+//@   loop 1 invariant[C07,C12] rpcByClient != nil && forall(k, 0 <= k && k < len(batch), batch[k] == old(batch[k]))
+//@   loop 1 invariant[C07,C12] forall(k, 0 <= k && k < len(batch), res[k].Msg == old(res[k].Msg) && (res[k].Error == old(res[k].Error) || res[k].Error != nil))
+//@   loop 1 invariant[C07,C12] forall(j, len(batch) <= j && j < len(res), res[j].Msg == old(res[j].Msg) && res[j].Error == old(res[j].Error))
+//@   loop 1 invariant[C07,C12] groupsOK(rpcByClient, batch, i) && groupsOrdered(rpcByClient)
+//@   loop 1 invariant[C07,C12] forall(rc, haskey(rpcByClient, rc) ==> allocated(rpcByClient[rc]))
 
 // a call may travel in a multi iff it implements Batchable and does not opt out (CheckAndPut, SkipBatch())
 //@ pred hrpc.canBatch(c) = typeis(c, "hrpc.Batchable") && !asiface(c, "hrpc.Batchable").SkipBatch()
@@ -217,18 +217,18 @@ package gohbase
 // ... and so is a batch that mixes tables or contains a call that may not travel in a multi
 //@   ensures[C12] (exists(k, 0 <= k && k < len(batch) && (!canBatch(batch[k]) || !seqeq(batch[k].Table(), batch[0].Table())))) ==> ghost("queued") == old(ghost("queued")) && !allOK
 //@   loop "for i, rpc := range batch"#1 invariant[C12] (exists(k, 0 <= k && k < i && (!canBatch(batch[k]) || !seqeq(batch[k].Table(), table)))) ==> !allOK
-//@   loop "for i, rpc := range batch"#1 invariant len(res) == len(batch) && rpcToRes != nil && forall(k, 0 <= k && k < len(batch), batch[k] == old(batch[k]))
-//@   loop "for i, rpc := range batch"#1 invariant forall(k, 0 <= k && k < i, res[k].Error != nil)
-//@   loop "for i, rpc := range batch"#1 invariant ghost("queued") == old(ghost("queued")) && marksBelow()
-//@   loop "for i, rpc := range batch"#1 invariant allOK ==> distinctCalls(batch[:i]) && forall(k, 0 <= k && k < i, haskey(rpcToRes, batch[k]) && rpcToRes[batch[k]] == k)
-//@   loop "for i, rpc := range batch"#1 invariant forall(c, haskey(rpcToRes, c) ==> exists(k, 0 <= k && k < i && batch[k] == c))
-//@   loop "for i, rpc := range batch"#1 invariant (exists(p, q, 0 <= p && p < q && q < i, batch[p] == batch[q])) ==> !allOK
-//@   loop "for" invariant len(res) == len(old(batch)) && rpcToRes != nil && marksBelow() && allocated(batch) && allocated(res)
-//@   loop "for" invariant sbOrig(old(batch), rpcToRes, len(res)) && sbCur(batch, old(batch), rpcToRes, len(res))
-//@   loop "for" invariant sbDone(res, batch, old(batch), rpcToRes, len(res)) && sbOwn(res, old(batch), len(res))
-//@   loop "for" invariant allOK == !unretryableErrorSeen
+//@   loop "for i, rpc := range batch"#1 invariant[C07,C12] len(res) == len(batch) && rpcToRes != nil && forall(k, 0 <= k && k < len(batch), batch[k] == old(batch[k]))
+//@   loop "for i, rpc := range batch"#1 invariant[C07,C12] forall(k, 0 <= k && k < i, res[k].Error != nil)
+//@   loop "for i, rpc := range batch"#1 invariant[C07,C12] ghost("queued") == old(ghost("queued")) && marksBelow()
+//@   loop "for i, rpc := range batch"#1 invariant[C07,C12] allOK ==> distinctCalls(batch[:i]) && forall(k, 0 <= k && k < i, haskey(rpcToRes, batch[k]) && rpcToRes[batch[k]] == k)
+//@   loop "for i, rpc := range batch"#1 invariant[C07,C12] forall(c, haskey(rpcToRes, c) ==> exists(k, 0 <= k && k < i && batch[k] == c))
+//@   loop "for i, rpc := range batch"#1 invariant[C07,C12] (exists(p, q, 0 <= p && p < q && q < i, batch[p] == batch[q])) ==> !allOK
+//@   loop "for" invariant[C07,C12] len(res) == len(old(batch)) && rpcToRes != nil && marksBelow() && allocated(batch) && allocated(res)
+//@   loop "for" invariant[C07,C12] sbOrig(old(batch), rpcToRes, len(res)) && sbCur(batch, old(batch), rpcToRes, len(res))
+//@   loop "for" invariant[C07,C12] sbDone(res, batch, old(batch), rpcToRes, len(res)) && sbOwn(res, old(batch), len(res))
+//@   loop "for" invariant[C07,C12] allOK == !unretryableErrorSeen
 //@   loop "for" invariant[C07] sbSeen(res, batch, rpcToRes, len(res), unretryableErrorSeen)
-//@   loop "for" invariant len(retries) == 0 && backoff >= 0
+//@   loop "for" invariant[C07,C12] len(retries) == 0 && backoff >= 0
 //@   loop "for" step[C07] forall(j, 0 <= j && j < len(res) && athead("for", res[j].Error) == nil, res[j].Error == nil && res[j].Msg == athead("for", res[j].Msg))
 //@   at call findClients#1 ghost round == ghost("round") + 1
 //@   loop "for i, rpc := range batch"#2 invariant[C07] len(res) == len(old(batch)) && sbFrame(res, athead("for", batch), rpcToRes, len(res)) && sbOwn(res, old(batch), len(res))
@@ -236,14 +236,14 @@ package gohbase
 // by call, a group can be split across multi-requests and the calls of a region no longer reach the server as one ordered list
 //@   at call QueueBatch#1 assert[C12] arg0 == ctx && sameslice(arg1, rpcs)
 //@   loop "for client, rpcs := range rpcByClient" invariant[C12] ghost("queued") == athead("for", ghost("queued")) + len(cAndRs)
-//@   loop "for client, rpcs := range rpcByClient" invariant carOK(cAndRs, rpcByClient) && forall(t, 0 <= t && t < len(cAndRs), visited(cAndRs[t].client))
-//@   loop "for client, rpcs := range rpcByClient" invariant forall(rc, visited(rc) ==> exists(t, 0 <= t && t < len(cAndRs) && cAndRs[t].client == rc))
-//@   loop "for _, cAndR := range cAndRs" invariant len(res) == len(old(batch)) && marksBelow()
-//@   loop "for _, cAndR := range cAndRs" invariant sbFrame(res, athead("for", batch), rpcToRes, len(res)) && sbOwn(res, old(batch), len(res))
-//@   loop "for _, cAndR := range cAndRs" invariant doneGroups(cAndRs, res, rpcToRes, idx, allOK) && retriesOK(retries, res, old(batch), rpcToRes, len(res))
-//@   loop "for _, cAndR := range cAndRs" invariant allOK ==> !unretryableErrorSeen && athead("for", allOK)
+//@   loop "for client, rpcs := range rpcByClient" invariant[C07,C12] carOK(cAndRs, rpcByClient) && forall(t, 0 <= t && t < len(cAndRs), visited(cAndRs[t].client))
+//@   loop "for client, rpcs := range rpcByClient" invariant[C07,C12] forall(rc, visited(rc) ==> exists(t, 0 <= t && t < len(cAndRs) && cAndRs[t].client == rc))
+//@   loop "for _, cAndR := range cAndRs" invariant[C07,C12] len(res) == len(old(batch)) && marksBelow()
+//@   loop "for _, cAndR := range cAndRs" invariant[C07,C12] sbFrame(res, athead("for", batch), rpcToRes, len(res)) && sbOwn(res, old(batch), len(res))
+//@   loop "for _, cAndR := range cAndRs" invariant[C07,C12] doneGroups(cAndRs, res, rpcToRes, idx, allOK) && retriesOK(retries, res, old(batch), rpcToRes, len(res))
+//@   loop "for _, cAndR := range cAndRs" invariant[C07,C12] allOK ==> !unretryableErrorSeen && athead("for", allOK)
 //@   loop "for _, cAndR := range cAndRs" invariant[C07] athead("for", unretryableErrorSeen) ==> unretryableErrorSeen
-//@   loop "for _, cAndR := range cAndRs" invariant untouched(cAndRs, res, rpcToRes, len(res), idx)
+//@   loop "for _, cAndR := range cAndRs" invariant[C07,C12] untouched(cAndRs, res, rpcToRes, len(res), idx)
 //@   loop "for _, cAndR := range cAndRs" invariant[C07] forall(rc, haskey(rpcByClient, rc) ==> exists(t, 0 <= t && t < len(cAndRs) && cAndRs[t].client == rc))
 //@   loop "for _, cAndR := range cAndRs" invariant[C07] groupsCover(rpcByClient, athead("for", batch), len(athead("for", batch)))
 // the flag is true exactly when every slot holds a nil error (C07). Per round: a slot of a finished group that holds an
@@ -264,10 +264,10 @@ package gohbase
 //@   loop "for _, cAndR := range cAndRs" exit-assert[C07] forall(j, 0 <= j && j < len(res) && notIn(athead("for", batch), rpcToRes, j) && res[j].Error != nil, athead("for", unretryableErrorSeen))
 //@   loop "for _, cAndR := range cAndRs" exit-assert[C07] allOK ==> forall(j, 0 <= j && j < len(res), res[j].Error == nil)
 //@   loop "for _, cAndR := range cAndRs" exit-assert[C07] forall(j, 0 <= j && j < len(res) && res[j].Error != nil && notIn(retries, rpcToRes, j), unretryableErrorSeen || ghostat("ctxdone", ctx) == 1)
-//@   loop "for _, cAndR := range cAndRs" invariant forall(u, p, idx <= u && u < len(cAndRs) && 0 <= p && p < len(cAndRs[u].rpcs), ghostat("retrymark", cAndRs[u].rpcs[p]) != ghost("round"))
-//@   loop "for _, cAndR := range cAndRs" invariant carOK(cAndRs, rpcByClient) && groupsOK(rpcByClient, athead("for", batch), len(athead("for", batch))) && groupsOrdered(rpcByClient)
-//@   loop "for _, cAndR := range cAndRs" invariant sbOrig(old(batch), rpcToRes, len(res)) && sbCur(athead("for", batch), old(batch), rpcToRes, len(res))
-//@   loop "for _, cAndR := range cAndRs" invariant allocated(res) && allocated(athead("for", batch)) && forall(rc, haskey(rpcByClient, rc) ==> allocated(rpcByClient[rc]) && rc != nil)
+//@   loop "for _, cAndR := range cAndRs" invariant[C07,C12] forall(u, p, idx <= u && u < len(cAndRs) && 0 <= p && p < len(cAndRs[u].rpcs), ghostat("retrymark", cAndRs[u].rpcs[p]) != ghost("round"))
+//@   loop "for _, cAndR := range cAndRs" invariant[C07,C12] carOK(cAndRs, rpcByClient) && groupsOK(rpcByClient, athead("for", batch), len(athead("for", batch))) && groupsOrdered(rpcByClient)
+//@   loop "for _, cAndR := range cAndRs" invariant[C07,C12] sbOrig(old(batch), rpcToRes, len(res)) && sbCur(athead("for", batch), old(batch), rpcToRes, len(res))
+//@   loop "for _, cAndR := range cAndRs" invariant[C07,C12] allocated(res) && allocated(athead("for", batch)) && forall(rc, haskey(rpcByClient, rc) ==> allocated(rpcByClient[rc]) && rc != nil)
 // round pacing (C17): a round is followed by a wait unless it is one of at most two immediate retries; waits walk the schedule
 //@   loop "for" invariant[C17] 0 <= immediateRetries && immediateRetries <= 2 && onSched(backoff)
 //@   loop "for" invariant[C17] ghost("round") - old(ghost("round")) - (ghost("nsleeps") - old(ghost("nsleeps"))) == immediateRetries
@@ -550,7 +550,9 @@ package gohbase
 //@   requires establishRegionOverride == nil && sleepAndIncreaseBackoffOverride == nil && reg != nil && ghostat("unavail", reg) == 1
 // the connection is created with the client's own settings (C18: its read timeout is the configured region read timeout,
 // for the master connection too; C20: for the address that was looked up; C05/C15: queue size, flush interval, user, codec)
-//@   at call newRegionClientFn#1 assert[C18,C20,C05] arg0 == addr && arg1 == c.clientType && arg2 == c.rpcQueueSize && arg3 == c.flushInterval && arg4 == c.effectiveUser && arg5 == c.regionReadTimeout && arg6 == nil
+//@   at call newRegionClientFn#1 assert[C18] arg5 == c.regionReadTimeout
+//@   at call newRegionClientFn#1 assert[C20] arg0 == addr && arg1 == c.clientType
+//@   at call newRegionClientFn#1 assert[C05] arg2 == c.rpcQueueSize && arg3 == c.flushInterval && arg4 == c.effectiveUser && arg6 == nil
 // (the regionserver branch builds its connection inside the factory literal handed to clientRegionCache.put; the literal is
 // represented by the assumed contract of put's parameter and its body is not executed by the generator: not under contract)
 // (closedexit is ghost state of this invocation: 0 when a goroutine starts with it)
